@@ -225,7 +225,8 @@ class Scatterer(HoloPyObject):
 
 class CenteredScatterer(Scatterer):
     def __init__(self, center=None):
-        if center is not None and (np.isscalar(center) or len(center) != 3):
+        if center is not None and (np.isscalar(center) or len(center) != 3 or
+                                   any(np.ndim(c) != 0 for c in center)):
             msg = ("center specified as {0}, "
                    "center should be specified as (x, y, z)".format(center))
             raise InvalidScatterer(self, msg)
